@@ -512,3 +512,75 @@ Proof.
 Qed.
 
 End Sched.
+
+(** * Witnesses: where the code leaves the schedule (reproduced on the implementation, see
+      known_findings.json, ids c14-...) *)
+
+Definition w_rep2 : rep :=   (* testpic_2s/V300: 4 x 2 s *)
+  {| segs := [ {| st := 0; en := 180000; snr := 1 |}; {| st := 180000; en := 360000; snr := 2 |};
+               {| st := 360000; en := 540000; snr := 3 |}; {| st := 540000; en := 720000; snr := 4 |} ]; ts := 90000 |}.
+Definition w_rep6 : rep :=   (* testpic_6s/V300: 2 x 6 s *)
+  {| segs := [ {| st := 0; en := 540000; snr := 1 |}; {| st := 540000; en := 1080000; snr := 2 |} ]; ts := 90000 |}.
+Definition w_rep8 : rep :=   (* testpic_8s/V300: 1 x 8 s *)
+  {| segs := [ {| st := 0; en := 720000; snr := 1 |} ]; ts := 90000 |}.
+
+Ltac prove_wf := constructor; [discriminate | repeat constructor; cbn; lia | cbn; repeat split; reflexivity
+                               | reflexivity | cbn; lia | reflexivity].
+
+Lemma w_rep2_wf : wf w_rep2 8000. Proof. prove_wf. Qed.
+Lemma w_rep6_wf : wf w_rep6 12000. Proof. prove_wf. Qed.
+Lemma w_rep8_wf : wf w_rep8 8000. Proof. prove_wf. Qed.
+
+Definition w_code (cycle rsq code : Z) : sscode := {| sc_cycle := cycle; sc_rsq := rsq; sc_code := code; sc_reps := [] |}.
+Definition w_cfg (start snr : Z) : tcfg := {| startS := start; startNr := snr; tsbdS := 60; ato := Some 0 |}.
+
+(** start_30: segment 4 (available from 40 s) of statuscode_[{cycle:8,rsq:1,code:404}] panics; and
+    segment 31 of cycle 30 (the second segment of the cycle that starts at 60 s) is not hit. *)
+Lemma start_refuted :
+  wf w_rep2 8000 /\ goodCode w_rep2 (w_code 8 1 404) /\ goodCode w_rep2 (w_code 30 1 404) /\
+  segAnswer w_rep2 8000 (w_cfg 30 0) [w_code 8 1 404] "V300" None ByNumber 4 40037 200
+    = APanic "findSegStartTime: index out of range" /\
+  scheduleCode w_rep2 [w_code 30 1 404] "V300" 31 = 404 /\
+  segAnswer w_rep2 8000 (w_cfg 30 0) [w_code 30 1 404] "V300" None ByNumber 31 94037 200 = AStatus 200.
+Proof.
+  split; [exact w_rep2_wf|]. repeat split; try (cbn; unfold two63; lia); vm_compute; reflexivity.
+Qed.
+
+(** snr_7: the first segment (number 7) panics; segment 9 (number 16, second of the cycle that starts
+    at 16 s) is not hit. *)
+Lemma snr_refuted :
+  wf w_rep2 8000 /\ goodCode w_rep2 (w_code 8 1 404) /\
+  segAnswer w_rep2 8000 (w_cfg 0 7) [w_code 8 1 404] "V300" None ByNumber 7 2037 200
+    = APanic "findSegStartTime: index out of range" /\
+  scheduleCode w_rep2 [w_code 8 1 404] "V300" 9 = 404 /\
+  segAnswer w_rep2 8000 (w_cfg 0 7) [w_code 8 1 404] "V300" None ByNumber 16 20037 200 = AStatus 200.
+Proof.
+  split; [exact w_rep2_wf|]. repeat split; try (cbn; unfold two63; lia); vm_compute; reflexivity.
+Qed.
+
+(** a cycle shorter than the first segment: 5 s on 6 s segments panics; 3 s on the single 8 s
+    segment moves the relative number by one (rsq 0 misses, rsq 1 hits the first segment of a cycle). *)
+Lemma short_cycle_refuted :
+  wf w_rep6 12000 /\ wf w_rep8 8000 /\
+  ~ goodCode w_rep6 (w_code 5 0 400) /\ ~ goodCode w_rep8 (w_code 3 0 500) /\
+  segAnswer w_rep6 12000 (w_cfg 0 0) [w_code 5 0 400] "V300" None ByNumber 1 12037 200
+    = APanic "findSegStartTime: index out of range" /\
+  scheduleCode w_rep8 [w_code 3 0 500] "V300" 1 = 500 /\
+  segAnswer w_rep8 8000 (w_cfg 0 0) [w_code 3 0 500] "V300" None ByNumber 1 16037 200 = AStatus 200 /\
+  scheduleCode w_rep8 [w_code 3 1 599] "V300" 1 = 0 /\
+  segAnswer w_rep8 8000 (w_cfg 0 0) [w_code 3 1 599] "V300" None ByNumber 1 16037 200 = AStatus 599.
+Proof.
+  split; [exact w_rep6_wf|]. split; [exact w_rep8_wf|].
+  split; [intros (_ & _ & H); vm_compute in H; apply H; reflexivity|].
+  split; [intros (_ & _ & H); vm_compute in H; apply H; reflexivity|].
+  repeat split; vm_compute; reflexivity.
+Qed.
+
+(** cycle * timescale wraps to 0: division by zero *)
+Lemma cycle_wrap_refuted :
+  ~ goodCode w_rep2 (w_code 1152921504606846976 38 404) /\
+  segAnswer w_rep2 8000 (w_cfg 0 0) [w_code 1152921504606846976 38 404] "V300" None ByNumber 38 78037 200
+    = APanic "calcStatusCode: integer divide by zero".
+Proof.
+  split; [intros (_ & H & _); vm_compute in H; discriminate H|vm_compute; reflexivity].
+Qed.
